@@ -83,12 +83,12 @@ func runVisoOps(f afero.File, ops []visoOp, ps3 bool) []string {
 			}()
 			switch op.kind {
 			case 'A':
-				buf := make([]byte, op.n)
+				buf := dirtyBuf(op.n)
 				n, err := f.ReadAt(buf, op.off)
 				maskImage(buf[:max(n, 0)], op.off, ps3)
 				out = append(out, fmt.Sprintf("%d/%s/%s", n, errClass(err), digest(buf[:max(n, 0)])))
 			case 'R':
-				buf := make([]byte, op.n)
+				buf := dirtyBuf(op.n)
 				n, err := f.Read(buf)
 				maskImage(buf[:max(n, 0)], cur, ps3)
 				out = append(out, fmt.Sprintf("%d/%s/%s", n, errClass(err), digest(buf[:max(n, 0)])))
@@ -317,7 +317,7 @@ func runViso(root string, c visoCase) (impl, oracle string) {
 	total := st.Size()
 	fmt.Fprintf(&sb, "size=%d ", total)
 	if c.full && total <= 3<<20 {
-		buf := make([]byte, total+4096)
+		buf := dirtyBuf(int(total + 4096))
 		n := 0
 		for {
 			k, err := f.Read(buf[n:min(n+65536, len(buf))])
@@ -375,7 +375,7 @@ func runViso(root string, c visoCase) (impl, oracle string) {
 		if n > 2<<20 {
 			n = 2 << 20
 		}
-		buf := make([]byte, n)
+		buf := dirtyBuf(int(n))
 		k, _ := sectionReaderAt{g}.ReadAt(buf, 0)
 		maskImage(buf[:k], 0, c.ps3)
 		return digest(buf[:k]), gs.Size()
@@ -803,4 +803,14 @@ func c18Wide(o *out, r *rng, n int) {
 		o.count("c18x")
 		o.emit(fmt.Sprintf("c18x %v %s", j.ps3, j.desc), again, "", fmt.Sprintf("wide%d", i))
 	}
+}
+
+// dirtyBuf: a read buffer that is NOT zeroed - whatever a Read/ReadAt claims to have delivered it must
+// really have written (a reused buffer of io.Copy or of the server's pool looks like this).
+func dirtyBuf(n int) []byte {
+	b := make([]byte, n)
+	for i := range b {
+		b[i] = 0xA5 ^ byte(i*7)
+	}
+	return b
 }
